@@ -218,26 +218,104 @@ func EdgeDominates(b *ssa.BasicBlock, succIdx int, at *ssa.BasicBlock) bool {
 	return s.Dominates(at)
 }
 
-// KnownNonNil reports whether v is known non-nil in block at by a dominating `v != nil`
-// (or `v == nil` false) edge.
-func KnownNonNil(v ssa.Value, at *ssa.BasicBlock) bool {
-	for _, b := range at.Parent().Blocks {
-		for k := range b.Succs {
-			if len(b.Succs) != 2 {
-				continue
+// ValueAliases returns v plus the loads that re-read v from a local variable cell it was
+// just spilled to (`*c = v; ...; t = *c` in one block with no store to c between). go/ssa
+// spills named results and captured locals this way.
+func ValueAliases(v ssa.Value) []ssa.Value {
+	out := []ssa.Value{v}
+	if v.Referrers() == nil {
+		return out
+	}
+	for _, ref := range *v.Referrers() {
+		st, ok := ref.(*ssa.Store)
+		if !ok || st.Val != v {
+			continue
+		}
+		if _, isLocal := st.Addr.(*ssa.Alloc); !isLocal {
+			continue
+		}
+		b := st.Block()
+		i := idxIn(b, st)
+		for j := i + 1; j < len(b.Instrs); j++ {
+			switch x := b.Instrs[j].(type) {
+			case *ssa.Store:
+				if x.Addr == st.Addr {
+					j = len(b.Instrs)
+				}
+			case *ssa.UnOp:
+				if x.Op == token.MUL && x.X == st.Addr {
+					out = append(out, x)
+				}
+			case *ssa.Call, *ssa.Go, *ssa.RunDefers:
+				if al := st.Addr.(*ssa.Alloc); al.Heap {
+					j = len(b.Instrs) // a callee may write a captured cell
+				}
 			}
+		}
+	}
+	return out
+}
+
+func knownRel(v ssa.Value, at *ssa.BasicBlock, op token.Token) bool {
+	al := ValueAliases(v)
+	for _, b := range at.Parent().Blocks {
+		if len(b.Succs) != 2 {
+			continue
+		}
+		for k := range b.Succs {
 			r, ok := EdgeRel(b, k)
-			if !ok {
+			if !ok || r.Op != op {
 				continue
 			}
 			x, y := r.X, r.Y
 			if IsNilConst(x) {
 				x, y = y, x
 			}
-			if x == v && IsNilConst(y) && r.Op == token.NEQ && EdgeDominates(b, k, at) {
-				return true
+			if !IsNilConst(y) || !EdgeDominates(b, k, at) {
+				continue
+			}
+			for _, a := range al {
+				if x == a {
+					return true
+				}
 			}
 		}
 	}
 	return false
+}
+
+// KnownNonNil reports whether v (or a spilled copy of it) is known non-nil in block at by
+// a dominating `v != nil` edge.
+func KnownNonNil(v ssa.Value, at *ssa.BasicBlock) bool { return knownRel(v, at, token.NEQ) }
+
+// KnownNil reports whether v (or a spilled copy of it) is known nil in block at.
+func KnownNil(v ssa.Value, at *ssa.BasicBlock) bool { return knownRel(v, at, token.EQL) }
+
+// NilEdgeOf finds the out-edge on which v (or a spilled copy) == nil; returns its target.
+func NilEdgeOf(fn *ssa.Function, v ssa.Value) *ssa.BasicBlock {
+	al := ValueAliases(v)
+	for _, b := range fn.Blocks {
+		if len(b.Succs) != 2 {
+			continue
+		}
+		for k := range b.Succs {
+			r, ok := EdgeRel(b, k)
+			if !ok || r.Op != token.EQL {
+				continue
+			}
+			x, y := r.X, r.Y
+			if IsNilConst(x) {
+				x, y = y, x
+			}
+			if !IsNilConst(y) {
+				continue
+			}
+			for _, a := range al {
+				if x == a {
+					return b.Succs[k]
+				}
+			}
+		}
+	}
+	return nil
 }
